@@ -95,6 +95,10 @@ pub enum Malformed {
     ChunkMissingCrlf,
     /// bad terminator after the last (0) chunk
     ChunkBadTerminator,
+    /// a control byte (bare LF) inside a chunk extension
+    ChunkExtControlByte,
+    /// chunk size 2^64 written with 17 hex digits (`10000000000000000`)
+    ChunkSizeTwoPow64,
 }
 
 impl Malformed {
@@ -124,6 +128,8 @@ impl Malformed {
         Malformed::ChunkDigitsAfterLws,
         Malformed::ChunkMissingCrlf,
         Malformed::ChunkBadTerminator,
+        Malformed::ChunkExtControlByte,
+        Malformed::ChunkSizeTwoPow64,
     ];
     pub fn in_head(self) -> bool {
         Self::HEAD_CLASSES.contains(&self)
@@ -385,8 +391,21 @@ impl RequestSpec {
             }
             Framing::Chunked(chunks) => {
                 let n = chunks.len();
+                let mut ended_by_wrapped_size = false;
                 for (i, c) in chunks.iter().enumerate() {
                     let mal_here = body_malformed && i == if n >= 2 { 1 } else { 0 };
+                    if mal_here && self.malformed == Some(Malformed::ChunkSizeTwoPow64) {
+                        // the size line of 2^64 followed by an empty line: a decoder whose size
+                        // arithmetic wraps to zero takes this for the end of the body
+                        b.extend_from_slice(b"10000000000000000");
+                        cuts.push(b.len());
+                        b.extend_from_slice(b"\r\n");
+                        cuts.push(b.len());
+                        b.extend_from_slice(b"\r\n");
+                        cuts.push(b.len());
+                        ended_by_wrapped_size = true;
+                        break;
+                    }
                     // size line
                     let mut size = hex(c.data.len(), c.upper_hex);
                     if mal_here && self.malformed == Some(Malformed::ChunkBadSizeChar) {
@@ -408,6 +427,14 @@ impl RequestSpec {
                         b.extend_from_slice(c.ext.as_bytes());
                         cuts.push(b.len() - 1);
                     }
+                    if mal_here && self.malformed == Some(Malformed::ChunkExtControlByte) {
+                        b.extend_from_slice(b";x");
+                        cuts.push(b.len());
+                        b.push(b'\n');
+                        cuts.push(b.len());
+                        b.push(b'x');
+                        cuts.push(b.len());
+                    }
                     b.push(b'\r');
                     cuts.push(b.len());
                     b.push(b'\n');
@@ -424,20 +451,22 @@ impl RequestSpec {
                     cuts.push(b.len());
                 }
                 // last chunk
-                b.push(b'0');
-                cuts.push(b.len());
-                b.push(b'\r');
-                cuts.push(b.len());
-                b.push(b'\n');
-                cuts.push(b.len());
-                if body_malformed && self.malformed == Some(Malformed::ChunkBadTerminator) {
-                    b.extend_from_slice(b"XY");
-                } else {
+                if !ended_by_wrapped_size {
+                    b.push(b'0');
+                    cuts.push(b.len());
                     b.push(b'\r');
                     cuts.push(b.len());
                     b.push(b'\n');
+                    cuts.push(b.len());
+                    if body_malformed && self.malformed == Some(Malformed::ChunkBadTerminator) {
+                        b.extend_from_slice(b"XY");
+                    } else {
+                        b.push(b'\r');
+                        cuts.push(b.len());
+                        b.push(b'\n');
+                    }
+                    cuts.push(b.len());
                 }
-                cuts.push(b.len());
                 if body_malformed {
                     // whatever comes out before the malformed point is a prefix of the truth;
                     // the exact prefix depends on the class
